@@ -122,26 +122,14 @@ func (s *GRPCServer) Init() error {
 // grpc.Broker if present.
 func (s *GRPCServer) Stop() {
 	s.server.Stop()
-
-	s.stopLock.Lock()
-	defer s.stopLock.Unlock()
-	if s.broker != nil {
-		s.broker.Close()
-		s.broker = nil
-	}
+	s.closeBroker()
 }
 
 // GracefulStop calls GracefulStop on the underlying grpc.Server and Close on
 // the underlying grpc.Broker if present.
 func (s *GRPCServer) GracefulStop() {
 	s.server.GracefulStop()
-
-	s.stopLock.Lock()
-	defer s.stopLock.Unlock()
-	if s.broker != nil {
-		s.broker.Close()
-		s.broker = nil
-	}
+	s.closeBroker()
 }
 
 // Config is the GRPCServerConfig encoded as JSON then base64.
@@ -165,6 +153,20 @@ func (s *GRPCServer) Serve(lis net.Listener) {
 	err := s.server.Serve(lis)
 	if err != nil {
 		s.logger.Error("grpc server", "error", err)
+	}
+
+	// The server has been stopped. Whoever waits for DoneCh (plugin.Serve,
+	// and after it usually the end of the process) must not get ahead of the
+	// broker's cleanup, which Stop only starts after the server has stopped.
+	s.closeBroker()
+}
+
+func (s *GRPCServer) closeBroker() {
+	s.stopLock.Lock()
+	defer s.stopLock.Unlock()
+	if s.broker != nil {
+		s.broker.Close()
+		s.broker = nil
 	}
 }
 
